@@ -317,13 +317,14 @@ def gateStep (cfg : Cfg) (r : GateRun) (e : Gate) : Except GateErr GateRun :=
       | none => .error .blocked
     else .error .mismatch
 
-/-- Execute a gate schedule; on failure the index of the offending event. -/
-def runGates (cfg : Cfg) (r : GateRun) : List Gate → Nat → Except (Nat × GateErr) GateRun
+/-- Execute a gate schedule; on failure the index of the offending event, why it cannot
+happen, and the run up to there. -/
+def runGates (cfg : Cfg) (r : GateRun) : List Gate → Nat → Except (Nat × GateErr × GateRun) GateRun
   | [], _ => .ok r
   | e :: es, i =>
     match gateStep cfg r e with
     | .ok r' => runGates cfg r' es (i + 1)
-    | .error err => .error (i, err)
+    | .error err => .error (i, err, r)
 
 def gateInit (cfg : Cfg) : GateRun := { state := init cfg, choices := [], checks := [] }
 
